@@ -203,7 +203,8 @@ def harness(env, case):
         other, ctxf = b
         f1, f2 = ctxf.format(a), ctxf.format(other)
         df, rows = gen.build_frame(env, gen.used_vars(f1 + " " + f2), "str", "scramble", min_rows=4)
-        ns = {"gl": ["u", "s", "t"]}
+        # names that collide with the helpers are bound in the caller's namespace: built-ins must still win
+        ns = {"gl": ["u", "s", "t"], "B": 3, "T": 300.0, "S": 12, "p": 0.05, "standardize": (lambda v: v), "binary": None, "C": "c", "I": 1}
         try:
             d1 = build(f1, df, extra_namespace=ns)
             r1 = None
